@@ -113,7 +113,9 @@ fn stacks() -> String {
 
 /// Threads that wake up on their own without doing work for anybody (pure reactors).
 fn is_background_noise(comm: &str) -> bool {
-    comm.starts_with("async-io")
+    // async-io's reactor polls with a back-off while somebody sits in its block_on; the harness'
+    // own time-keeper only moves the virtual clock and feeds ticks
+    comm.starts_with("async-io") || comm.starts_with("timekeeper")
 }
 
 /// Run `f` on a runner thread. `watchdog`: generous wall-clock limit (inconclusive when it fires).
